@@ -164,6 +164,11 @@ def generate(rng, index, tier):
     if rng.random() < 0.15:
         plan['asker_hangup'] = True
         plan['slow_closing'] = rng.choice([0.05, 0.5, 2.0])
+    if rng.random() < 0.2:
+        plan['store_amount'] = rng.choice([0, 1, 2, 3])
+    if rng.random() < 0.25:
+        plan['connect_mode'] = rng.choice(['fallback', 'race'])
+        plan['portless'] = sorted(rng.sample([STRANGER, FRIEND], rng.randint(1, 2)))
     if has_parent and rng.random() < 0.12:
         # the server connection is lost somewhere along the way (once); later requests come from the parent only
         pos = rng.randint(0, len(steps))
@@ -227,6 +232,18 @@ def corpus(tier):
             out.append(_plan([search(carrier, STRANGER), search(carrier, STRANGER, gap=gap), search(carrier, FRIEND, gap=gap),
                               search(carrier, STRANGER, gap=gap)],
                              parent=None if carrier == 'server' else 'default', asker_hangup=True, slow_closing=2.0))
+    # 10. askers without listening ports (reachable through the server only) in both connect modes; a small memory of
+    #     received requests, more requests than it holds
+    for carrier in ('server', 'dist'):
+        parent = None if carrier == 'server' else 'default'
+        for mode in ('fallback', 'race'):
+            out.append(_plan([search(carrier, STRANGER), search(carrier, FRIEND, 'secret', gap=1.0),
+                              search(carrier, STRANGER, 'nomatch', gap=1.0), search(carrier, STRANGER, gap=1.0)],
+                             parent=parent, connect_mode=mode, portless=[STRANGER, FRIEND]))
+        for amount in (0, 1, 2):
+            out.append(_plan([search(carrier, STRANGER), search(carrier, FRIEND, 'secret'), search(carrier, STRANGER, 'nomatch'),
+                              search(carrier, STRANGER, '*ong'), search(carrier, FRIEND)],
+                             parent=parent, store_amount=amount))
     # 9. a child user with two connections at once, one of them goes away; the parent's user dials in a second time
     for carrier in ('dist', 'legacy'):
         for which in ('old', 'new'):
@@ -296,7 +313,9 @@ def _run(world: World, plan):
     loop = world.loop
     server = world.add_server({'parent_min_speed': 1, 'parent_speed_ratio': 50})
     server.users[OWN] = {'stats': (40960, 10, 5, 2)}          # limit 8: every child of the plan is admitted
-    peers = {name: world.add_peer(name) for name in ALL_PEERS}
+    portless = set(plan.get('portless') or [])
+    peers = {name: world.add_peer(name, listening_clear=name not in portless, listening_obfuscated=name not in portless)
+             for name in ALL_PEERS}
 
     # ------------------------------------------------------------------ shares on disk
     root = world.sandbox.sub(OWN, 'shares')
@@ -317,6 +336,11 @@ def _run(world: World, plan):
             {'path': dirs['priv'], 'share_mode': 'friends', 'users': []}]},
         'users': {'friends': [FRIEND]},
     }
+    if plan.get('connect_mode'):
+        overrides['network'] = {'peer': {'connect_mode': plan['connect_mode']}}
+    if plan.get('store_amount') is not None:
+        # how many received requests the client remembers (default 500)
+        overrides['searches'] = {'receive': {'store_amount': int(plan['store_amount'])}}
     alice = world.add_client(OWN, overrides=overrides)
     client = alice.client
     dn = client.distributed_network
@@ -418,6 +442,28 @@ def _run(world: World, plan):
 
     for peer in peers.values():
         peer.accept_handler = make_accept(peer)
+
+    def make_relay(peer):
+        # an asker without listening ports can only be reached through the server: it pierces on request
+        def on_relay(relay):
+            async def pierce():
+                touch()
+                port, obf = (relay.port, False) if relay.port else (relay.obfuscated_port, True)
+                try:
+                    link = await peer.connect_pierce(relay.ip, port, relay.ticket, relay.typ, obfuscated=obf)
+                except OSError:
+                    return
+                world.net.fired['asker_without_ports_pierced'] += 1
+                if relay.typ == 'P':
+                    prec = {'peer': peer.name, 'link': link, 'replies': []}
+                    plinks.append(prec)
+                    await preader(prec)
+            return pierce()
+        return on_relay
+
+    for name in portless:
+        if name in peers:
+            peers[name].connect_to_peer_handler = make_relay(peers[name])
 
     wire = None
     if plan.get('asker_hangup'):
